@@ -321,8 +321,8 @@ Definition show_float (f : frepr) : str :=
   match f with
   | FFin m None => m
   | FFin m (Some e) => if memN 46 m then m ++ 101 :: e else m ++ lit ".0e" ++ e
-  | FInf false => lit "inf"
-  | FInf true => lit "-inf"
+  | FInf false => lit "1.0e999"         (* a float literal that denotes infinity *)
+  | FInf true => lit "-1.0e999"
   | FNan => lit "nan"
   end.
 
@@ -428,6 +428,11 @@ Definition prec (o : binop) : nat :=
   | OContains | OIn => 6
   end%nat.
 
+(** The words that start the options of a loop expression. *)
+Definition is_loop_keyword (w : str) : bool :=
+  str_eqb w (lit "limit") || str_eqb w (lit "reversed")
+  || str_eqb w (lit "cols") || str_eqb w (lit "offset").
+
 Section Print.
   Variable printable : N -> bool.
 
@@ -464,9 +469,8 @@ Section Print.
     | PEmpty => AWord (lit "empty") | PBlank => AWord (lit "blank")
     | PInt z => AInt z
     | PFloat (FFin m e) => AFloat (FFin m e)
-    | PFloat (FInf false) => AWord (lit "inf")     (* [inf] is lexed as a word *)
-    | PFloat (FInf true) => AOther (lit "-inf")    (* not lexable *)
-    | PFloat FNan => AWord (lit "nan")
+    | PFloat (FInf neg) => AFloat (FInf neg)
+    | PFloat FNan => AWord (lit "nan")             (* [nan] is lexed as a word *)
     | PStr s => let (q, raw) := string_repr printable s in AStr q raw
     | PPath pa => path_atok range_start pa
     | PRange _ _ => AOther (lit "(..)")            (* a range cannot bound a range *)
@@ -564,10 +568,33 @@ Section Print.
     | None => []
     end.
 
+  (** [_not_a_bare_word(expression, words)] (added by the fix): a variable
+      named like one of [words] is written in bracket notation. *)
+  Definition print_not_bare (is_special : str -> bool) (p : prim) : tok :=
+    match p with
+    | PPath (PName w PEnd) => if is_special w then TA (APath (quoted_seg w TPEnd)) else print_prim p
+    | _ => print_prim p
+    end.
+
+  Definition is_continue (w : str) : bool := str_eqb w (lit "continue").
+
+  (** The iterable of a loop: in an array literal with more than one item the
+      second item must not be a bare option name. *)
+  Definition print_loop_iter (l : left) : list tok :=
+    match l with
+    | LArray (x :: y :: r) =>
+      join sep_comma ([print_prim x] :: [print_not_bare is_loop_keyword y]
+                      :: map (fun p => [print_prim p]) r)
+    | _ => print_left l
+    end.
+
   Definition print_loop (l : loopexpr) : list tok :=
-    word (lp_ident l) :: TSp :: TOp OIn :: TSp :: print_left (lp_iter l)
+    word (lp_ident l) :: TSp :: TOp OIn :: TSp :: print_loop_iter (lp_iter l)
     ++ print_loop_opt "limit" (lp_limit l)
-    ++ print_loop_opt "offset" (lp_offset l)
+    ++ (match lp_offset l with
+        | Some p => [TSp; word (lit "offset"); TColon; print_not_bare is_continue p]
+        | None => []
+        end)
     ++ print_loop_opt "cols" (lp_cols l)
     ++ (if lp_reversed l then [TSp; word (lit "reversed")] else []).
 
@@ -814,9 +841,6 @@ Definition parse_filtered (ts : list tok) : res fexpr :=
   end.
 
 (** [LoopExpression.parse]. *)
-Definition is_loop_keyword (w : str) : bool :=
-  str_eqb w (lit "limit") || str_eqb w (lit "reversed")
-  || str_eqb w (lit "cols") || str_eqb w (lit "offset").
 
 Definition is_colon_or_assign (t : tok) : bool :=
   match t with TColon | TAssign => true | _ => false end.
